@@ -177,8 +177,7 @@ def runActs : List Act → Inp → PState → List Seq → Next → PState × Li
 
 /-- Call one state function. -/
 def runFn (f : StateFn) (i : Inp) (s : PState) : PState × List Seq × Next :=
-  let a := f.arm i
-  let (s', out, n) := runActs (f.pre ++ a.acts) i s [] a.next
+  let (s', out, n) := runActs (f.row i).1 i s [] (f.row i).2
   (if f.pre.contains .deferClearIgnoreST then { s' with ignoreST := false } else s', out, n)
 
 structure Table where
@@ -365,9 +364,12 @@ def runWith (T : Table) : PState → List Inp → PState × List Seq × Bool
     if o.stop then (o.st, o.out, true)
     else let (s', out, b) := runWith T o.st rest; (s', o.out ++ out, b)
 
-/-- Run the hand model over runes (no eof). -/
-def run (s : PState) (w : List Rune) : PState × List Seq :=
-  let (s', out, _) := runWith handTable s (w.map .rune)
-  (s', out)
+/-- Run the hand model over runes (a rune never stops the loop: `Lemmas.Parser.rune_never_stops`). -/
+def run : PState → List Rune → PState × List Seq
+  | s, [] => (s, [])
+  | s, r :: w =>
+    let o := pstep s (.rune r)
+    let (s', out) := run o.st w
+    (s', o.out ++ out)
 
 end VaxisModel.Model.Parser
